@@ -38,18 +38,18 @@ def plan(tier, seed):
     if tier == "quick":
         # the seed's algorithm: all CONNECT shapes x all flag combinations x near-miss classes, 2 users x 3 storable passwords
         specs.append(spec("main_" + main, "ascii", main, stored=stored, user_miss=["unk"] + rot(["u1.pre", "u1.case", "u1.max", "x.empty", "u1.ext"], seed, 1),
-                          pass_miss=["ext"] + rot(["nul", "max", "hashof", "cas", "pre"], seed, 1), shapes=SHAPES,
-                          man_none=["own"], man_victim=["victim+will"],
+                          pass_miss=["ext", "rep"] + rot(["nul", "max", "hashof", "cas", "pre"], seed, 1),
+                          shapes=SHAPES[:3] + rot(SHAPES[3:], seed, 1), man_none=["own"], man_victim=["victim+will"],
                           prephases=rot(PREPHASES, seed, 2), prevers=rot(PREVERS, seed, 1), workers=16))
         # the other algorithms: both users, 2 storable passwords, fewer classes, other concretisations
         packs = rot(["nested", "unicode", "yaml", "ascii"], seed, 3)
         for i, a in enumerate(others):
             specs.append(spec("side_" + a, "long72" if a == "bcrypt" else packs[i], a, stored=["b", rot(["pre", "cas", "emp"], seed + i, 1)[0]],
-                              user_miss=["unk"], pass_miss=["ext"] + rot(["max", "nul"], seed + i, 1),
+                              user_miss=["unk"], pass_miss=["ext"] + rot(["max", "nul", "rep"], seed + i, 1) + (["rep"] if a == "bcrypt" else []),
                               shapes=rot(SHAPES[:3], seed + i, 1) + rot(SHAPES[3:] + SHAPES[:3], seed + i, 1),
                               prephases=rot(PREPHASES, seed + i, 1), prevers=rot(PREVERS, seed + i, 1)))
         if main == "bcrypt":
-            specs.append(spec("long72_bcrypt", "long72", "bcrypt", stored=["b"], pass_miss=["ext", "max"], shapes=["v311"], prekinds=["pingreq"], workers=6))
+            specs.append(spec("long72_bcrypt", "long72", "bcrypt", stored=["b"], pass_miss=["ext", "max", "nul", "rep"], shapes=["v311"], prekinds=["pingreq"], workers=6))
         # password file given relative to the configuration directory (working directory differs / is the same)
         specs.append(spec("rel_" + main, "ascii", main, mode="rel", stored=["b", "pre"], shapes=["v311"], pass_miss=[], user_miss=["unk"],
                           prekinds=["pingreq"], workers=6))
@@ -61,8 +61,9 @@ def plan(tier, seed):
     else:
         for i, a in enumerate([main] + others):
             st = STORED_SETS[(seed + i) % 3]
-            specs.append(spec("full_" + a, "ascii", a, stored=st, user_miss=["u1.pre", "u1.case", "unk", "u1.max", "x.empty"],
-                              pass_miss=["pre", "cas", "emp", "ext", "nul", "max", "hashof"], shapes=SHAPES,
+            specs.append(spec("full_" + a, "ascii", a, stored=st,
+                              user_miss=["u1.pre", "u1.case", "unk", "u1.max", "x.empty"] if a == main else ["unk"] + rot(["u1.pre", "u1.case", "u1.max", "x.empty"], seed + i, 2),
+                              pass_miss=["pre", "cas", "emp", "ext", "nul", "rep", "max", "hashof"], shapes=SHAPES,
                               man_none=["own"], man_victim=["victim", "victim+will"] if a == main else ["victim+will"],
                               prephases=PREPHASES, prevers=PREVERS, after_takeover=(a == main), workers=16))
         packs = ["nested", "unicode", "yaml", "long72", "maxstored"]
@@ -73,7 +74,7 @@ def plan(tier, seed):
                 if (i + j + seed) % 2 and not (pk == "long72" and a == "bcrypt"):
                     continue   # every pack with two of the algorithms (the seed decides which); long72 always with bcrypt
                 specs.append(spec("%s_%s" % (pk, a), pk, a, stored=["b", rot(["pre", "cas", "emp"], seed + i + j, 1)[0]],
-                                  user_miss=["unk", "u1.pre", "u1.ext", "u2.pre"], pass_miss=["pre", "cas", "ext", "max", "nul"],
+                                  user_miss=["unk", "u1.pre", "u1.ext", "u2.pre"], pass_miss=["pre", "cas", "ext", "max", "nul", "rep"],
                                   shapes=rot(SHAPES[:3], seed + i + j, 2) + rot(SHAPES[3:], seed + j, 1), man_victim=["victim+will"],
                                   prephases=rot(PREPHASES, seed + j, 1), prevers=rot(PREVERS, seed + i, 1)))
         for a in ALGOS:
@@ -84,8 +85,12 @@ def plan(tier, seed):
             specs.append(spec("reldev_" + a, "ascii", a, dev=["relpath"], **kw))
             kw["mode"] = "relsame"
             specs.append(spec("relsame_" + a, "ascii", a, **kw))
+        # the seed's algorithm once more with the deviation `authmethod_rejected`: behind the refused Authentication Method
+        # CONNECTs nothing else may differ (their state projection is skipped in the strict packs)
+        specs.append(spec("amdev_" + main, "ascii", main, stored=["b", "emp"], user_miss=["unk"], pass_miss=["ext"], shapes=["v5", "v5am", "v5amd"],
+                          man_victim=["victim", "victim+will"], prekinds=["connect2"], dev=["authmethod_rejected"], after_takeover=True))
         for i, a in enumerate(rot(ALGOS, seed, 2)):
-            specs.append(spec("ws_" + a, "ascii", a, stored=["b", "emp"], lns=["tcp", "ws"], shapes=SHAPES, pass_miss=["ext", "nul"], user_miss=["unk", "u1.pre"],
+            specs.append(spec("ws_" + a, "ascii", a, stored=["b", "emp"], lns=["tcp", "ws"], shapes=SHAPES[:3] + rot(SHAPES[3:], seed + i, 1), pass_miss=["ext", "nul"], user_miss=["unk"],
                               man_victim=["victim+will"], prephases=PREPHASES, prevers=PREVERS, workers=12))
     return specs
 
@@ -95,7 +100,7 @@ def run(ctx):
                        "(prefix = BFS path): Update/Delete through the plugin's handlers, Restart = Stop + new broker on the same password file, "
                        "CONNECT over shapes {v3.1, v3.1.1, v5, v5+AuthMethod, v5+AuthMethod+AuthData} x user-name/password flags x user classes "
                        "(stored, prefix, case/normal form, extension, 65535 bytes, empty, unknown) x password classes (stored, prefix, case, empty, "
-                       "extension, trailing NUL, 65535 bytes, the stored hash text) x client id own/victim x will, unauthenticated packet sequences "
+                       "extension, trailing NUL, password NUL password, 65535 bytes, the stored hash text) x client id own/victim x will, unauthenticated packet sequences "
                        "(SUBSCRIBE, PUBLISH retained/clearing/to the victim, UNSUBSCRIBE, PINGREQ, AUTH, DISCONNECT, 2nd CONNECT with valid credentials) "
                        "before any CONNECT / after a failed CONNECT / pipelined behind it; compared: CONNACK accept/reject, ClientService sessions+clients, "
                        "SubscriptionService, RetainedService, the victim's connection, account API List/Get, probe CONNECTs per account (full user x password "
@@ -108,6 +113,26 @@ def run(ctx):
         "hash algorithms exercised through the plugin itself (accounts are only created through Update); bcrypt cost is fixed by the plugin (MinCost)",
         "memory persistence: a restart forgets sessions/subscriptions/retained messages",
     ]
+    if getattr(ctx, "replay", None):
+        # ./check C19 quick --replay evidence/replays/C19_<id>.json : the stored transition on a fresh broker
+        with open(ctx.replay) as fh:
+            obj = json.load(fh)
+        n = 200 if obj["signature"] == "c19:failing-connack-lost" else 1     # the lost CONNACK is probabilistic
+        found = False
+        for _ in range(n):
+            summary, divs = auth_lib.replay(ctx, obj)
+            ctx.cov["traces_validated_against_impl"] += summary["n"]
+            ctx.cov["evaluations"] += summary["counters"].get("connects", 0)
+            for d in divs:
+                found = True
+                ctx.violation(d["what"], {"signature": d["signature"], "kind": "authgate-transition", "pack": d["pack"], "algo": d["algo"],
+                                          "pwfile": d["mode"], "deviations": d["dev"], "meta": d["meta_file"], "transition": d.get("line"),
+                                          "observed": d.get("extra")})
+            if found:
+                break
+        ctx.cov["rule"] = "replay of one stored AuthGate transition"
+        ctx.sample({"replayed": obj["transition"], "reproduced": found})
+        return
     specs = plan(ctx.tier, ctx.seed)
     results = auth_lib.run_many(ctx, specs, parallel=len(specs) if ctx.tier == "quick" else 4)
     agg = {}
@@ -135,9 +160,12 @@ def run(ctx):
         for d in divs:
             if d["signature"].startswith("machinery:"):
                 raise vlib.MachineryError("pack %s: %s: %s" % (sp["name"], d["signature"], d["what"]))
-            if "relpath" in sp["dev"]:
+            # a pack that runs with a deviation must not show the finding the deviation stands for: keep such a divergence
+            # apart from the known finding's signature
+            if ("relpath" in sp["dev"] and ":pwfile=" in d["signature"]) or \
+               ("authmethod_rejected" in sp["dev"] and "authentication-method" in d["signature"]):
                 d = dict(d)
-                d["signature"] += ":with-deviation-relpath"
+                d["signature"] += ":with-deviation-" + "+".join(sp["dev"])
             alldivs.append(d)
     ctx.cov["packs"] = packs
     owed = agg.get("reject_owed_connack", 0)
@@ -156,4 +184,4 @@ def run(ctx):
         ctx.violation(d["what"], {"signature": d["signature"], "kind": "authgate-transition", "pack": d["pack"], "algo": d["algo"],
                                   "pwfile": d["mode"], "deviations": d["dev"], "meta": d["meta_file"], "transition": d.get("line"),
                                   "observed": d.get("extra"),
-                                  "replay": "echo '<transition json>' | .build/bin/plain/authgate -raw -meta <meta.json> (meta = this object's meta with an existing root)"})
+                                  "replay": "./check C19 quick --replay <this file>"})
